@@ -186,6 +186,9 @@ def run_oracles(pid, recs, res, cst):
         stats['entities'] += len(r['impl_nodes'])
         for n in r['impl_nodes']:
             kinds[bytes.fromhex(n['type'][1:]).decode()] += 1
+        if pid == 'C09' and r.get('build_ms', 0) > 3000 and len(c['data']) < 200000:
+            stats['stalls'] += 1
+            res.violations.append(replay_payload(pid, c, 'building the graph for a %d-byte file took %d ms' % (len(c['data']), r['build_ms']), 'stall'))
         if r['impl_outcome'] == 'panic':
             stats['impl_panics'] += 1
             if pid == 'C09':
@@ -298,6 +301,36 @@ def scaling(res, work, tier):
         dt = time.time() - t
         times.append((len(src), round(dt, 3), rc))
     res.coverage['scaling'] = [dict(bytes=a, wall_s=b, rc=c) for a, b, c in times]
+    # nesting family: a local declaration followed by code nested d levels deep (calls, parentheses,
+    # blocks, binary operators); small files that must scan in milliseconds at every depth
+    nest = []
+    for d in (6, 12, 24, 48):
+        def nested(kind):
+            if kind == 'call':
+                return 'return ' + 'f(' * d + 'v' + ')' * d + ';'
+            if kind == 'paren':
+                return 'return ' + '(' * d + 'v' + ')' * d + ';'
+            if kind == 'binary':
+                return 'return ' + '(1 + ' * d + 'v' + ')' * d + ';'
+            return '{' * d + ' g(v); ' + '}' * d + ' return v;'
+        for kind in ('call', 'paren', 'binary', 'block'):
+            src = ('class N { int m(int v) { int unused = 0; String other = "s"; %s } }\n' % nested(kind)).encode()
+            fp = os.path.join(work, 'nest.java')
+            open(fp, 'wb').write(src)
+            open(work + '/nestlist.txt', 'w').write('n x%s %s\n' % (b'N.java'.hex(), fp))
+            t = time.time()
+            rc, out, err = run([B + '/harness', 'scan-dump', work + '/nestlist.txt', work + '/nestcases.txt', work + '/nestimpl.txt'], timeout=20)
+            dt = round(time.time() - t, 3)
+            nest.append(dict(kind=kind, depth=d, bytes=len(src), wall_s=dt, rc=rc))
+            if rc != 0 or dt > 5:
+                res.violations.append(dict(property='C09', what='scanning a %d-byte file with %s nesting depth %d %s' % (len(src), kind, d, 'did not finish within 20 s' if rc == 124 else 'took %.1f s (rc %d)' % (dt, rc)),
+                                           path='N.java', origin='nesting-family', data_b64=__import__('base64').b64encode(src).decode(),
+                                           how='graph.Initialize on a directory holding this file; CPU time'))
+                break
+        else:
+            continue
+        break
+    res.coverage['nesting'] = nest
     # 9x the input may cost at most ~81x (quadratic) plus slack; cubic would be 729x
     (b1, t1, _), _, (b3, t3, _) = times
     if any(rc != 0 for _, _, rc in times):
